@@ -161,6 +161,89 @@ def pick_media(rnd, cfg):
     return True, G.fill(pat, rnd, regfields='dnmalh'), name
 
 
+B16 = [0, 1, 0x7FFF, 0x8000, 0xFFFF, 0x8001]
+B8 = [0, 1, 0x7F, 0x80, 0xFF, 0x81]
+B32 = [0, 1, 2, 0x7FFFFFFF, 0x80000000, 0xFFFFFFFF, 0x40000000, 0xC0000000, 0x3FFFFFFF, 0xBFFFFFFF, 0x8000, 0xFFFF, 0x10000]
+
+
+def _par_word(thumb, prefix, op, d, n, m):
+    """prefix in S Q SH U UQ UH; op in ADD16 ASX SAX SUB16 ADD8 SUB8"""
+    if not thumb:
+        p = {'S': 1, 'Q': 2, 'SH': 3, 'U': 5, 'UQ': 6, 'UH': 7}[prefix]
+        o = {'ADD16': 0, 'ASX': 1, 'SAX': 2, 'SUB16': 3, 'ADD8': 4, 'SUB8': 7}[op]
+        return 0xE6000F10 | (p << 20) | (n << 16) | (d << 12) | (o << 5) | m
+    o = {'ADD16': 1, 'ASX': 2, 'SAX': 6, 'SUB16': 5, 'ADD8': 0, 'SUB8': 4}[op]
+    u = 1 if prefix.startswith('U') else 0
+    pp = {'S': 0, 'U': 0, 'Q': 1, 'UQ': 1, 'SH': 2, 'UH': 2}[prefix]
+    return 0xFA80F000 | (o << 20) | (n << 16) | (d << 8) | (u << 6) | (pp << 4) | m
+
+
+def boundary_items(rnd, quick):
+    """directed operand grids: every boundary lane pair at every lane placement for the 36 parallel forms; boundary
+    operand pairs for saturating arithmetic and the multiplies; saturation bounds +-1 for SSAT/USAT"""
+    items = []
+    for thumb in (False, True):
+        for prefix in ('S', 'Q', 'SH', 'U', 'UQ', 'UH'):
+            for op in ('ADD16', 'ASX', 'SAX', 'SUB16', 'ADD8', 'SUB8'):
+                B = B8 if op.endswith('8') else B16
+                sh = 8 if op.endswith('8') else 16
+                lanes = 32 // sh
+                for x in B:
+                    for y in B:
+                        for (ln, lm) in [(0, 0), (lanes - 1, lanes - 1), (0, lanes - 1), (lanes - 1, 0)]:
+                            if quick and (ln, lm) in [(0, lanes - 1), (lanes - 1, 0)] and op not in ('ASX', 'SAX'):
+                                continue
+                            vn = sum(rnd.choice(B) << (sh * k) for k in range(lanes))
+                            vm = sum(rnd.choice(B) << (sh * k) for k in range(lanes))
+                            mask = (1 << sh) - 1
+                            vn = (vn & ~(mask << (sh * ln))) | (x << (sh * ln))
+                            vm = (vm & ~(mask << (sh * lm))) | (y << (sh * lm))
+                            items.append((thumb, _par_word(thumb, prefix, op, 2, 0, 1), {0: vn, 1: vm}, prefix + op))
+        # saturating add/sub, multiplies: boundary operand pairs
+        for x in B32:
+            for y in B32:
+                for o in range(4):
+                    w = (0xE1000050 | (o << 21) | (1 << 16) | (2 << 12) | 0) if not thumb else (0xFA80F080 | (1 << 16) | (2 << 8) | (o << 4) | 0)
+                    items.append((thumb, w, {0: x, 1: y}, 'qarith'))
+                if not thumb:
+                    for w in (0xE0120190, 0xE0320190 | (3 << 12), 0xE0932190, 0xE0D32190, 0xE0B32190, 0xE0F32190, 0xE0432190,
+                              0xE1020180, 0xE10201E0, 0xE12201A0, 0xE16201C0, 0xE1432180, 0xE7520110 | (3 << 12), 0xE7020110 | (3 << 12),
+                              0xE7020150 | (3 << 12), 0xE7120110 | (15 << 12), 0xE7320110 | (15 << 12)):
+                        items.append((False, w, {0: x, 1: y, 2: rnd.choice(B32), 3: rnd.choice(B32)}, 'mulgrid'))
+                else:
+                    for w in (0xFB00F201, 0xFB003201, 0xFB003211, 0xFB803200, 0xFBA03200, 0xFBC03200, 0xFBE03200, 0xFBE03260,
+                              0xFB103201, 0xFB103231, 0xFB303201, 0xFB303211, 0xFB203201, 0xFB403201, 0xFB503201, 0xFB503211,
+                              0xFB603201, 0xFB90F2F1, 0xFBB0F2F1):
+                        items.append((True, w, {0: x, 1: y, 2: rnd.choice(B32), 3: rnd.choice(B32)}, 'mulgrid'))
+        # SSAT / USAT around the saturation bounds
+        for n in ([1, 8, 16, 31, 32] if quick else range(1, 33)):
+            for dlt in (-2, -1, 0, 1):
+                for sign in (1, -1):
+                    v = (sign * (1 << (n - 1)) + dlt) & 0xFFFFFFFF
+                    if not thumb:
+                        items.append((False, 0xE6A02010 | ((n - 1) << 16), {0: v}, 'ssat'))
+                        if n < 32:
+                            items.append((False, 0xE6E02010 | (n << 16), {0: v}, 'usat'))
+                    else:
+                        items.append((True, 0xF3000200 | (n - 1), {0: v}, 'ssat'))
+                        if n < 32:
+                            items.append((True, 0xF3800200 | n, {0: v}, 'usat'))
+    return items
+
+
+def grid_task(task):
+    """task: name, seed, cfg, items = [(thumb, word, {regnum: value}, label)]"""
+    rnd = random.Random(task['seed'])
+    g = S.mk_group(task)
+    for k, (thumb, w, regs, label) in enumerate(task['items']):
+        st, pc = S.prep(g, rnd, dict(task, modes='usr'), thumb, 0, k)
+        for r, v in regs.items():
+            st['R']['R%dusr' % r] = limbs(v)
+        C.put_instr(st, pc, w, thumb)
+        g.add(st, {'n': 'Step'}, meta={'gen': label, 'word': w, 'thumb': thumb})
+    return [g]
+
+
 PICKERS = {'media': pick_media, 'dp': pick_dp, 'ls': pick_ls, 'lsm': pick_lsm, 'br': pick_br}
 
 
@@ -188,4 +271,5 @@ def run_family(ctx, picker, n_per_group, opts, clause_filter, configs=None, tags
 
 
 def exact_filter(c, v, e):
-    return v['path'].startswith('exact') and c not in ('hosterror', 'range', 'confine', 'nop-on-condfail')
+    # a host error where the specification pins the step down exactly is a wrong result too
+    return v['path'].startswith('exact') and c not in ('range', 'confine', 'nop-on-condfail')
